@@ -164,8 +164,11 @@ def generate(run_seed):
         else:
             script.append(["quiesce"])
     policy = rng.choice(POLICIES)
-    return {"format": 1, "engine": "threads", "property": PROPERTY, "run_seed": run_seed,
+    case = {"format": 1, "engine": "threads", "property": PROPERTY, "run_seed": run_seed,
             "scenario": scen, "script": script, "policy": policy, "schedule": None}
+    if st.get("swarm").random() < 0.04:
+        case["extended"] = True
+    return case
 
 
 # ---------------------------------------------------------------------------------- the world
@@ -443,7 +446,16 @@ def run_script(case, mode, forced=None):
     with seams.installed(streams, clock=clock) as env:
         scheduler = None
         if mode == "scheduled":
-            scheduler = S.Scheduler(streams.get("sched"), case["policy"], clock=clock, forced=forced)
+            if case.get("extended"):
+                # observation mode: every source line of the two loader modules is a pre-emption
+                # point - finer than the granularity the quantifier names, so nothing found here
+                # is a violation
+                scheduler = S.Scheduler(streams.get("sched"), case["policy"], clock=clock,
+                                        forced=forced, max_steps=20000,
+                                        line_trace=("odml/terminology.py", "odml/templates.py"))
+            else:
+                scheduler = S.Scheduler(streams.get("sched"), case["policy"], clock=clock,
+                                        forced=forced)
         world = World(case, env, scheduler)
         world.setup_files()
         hist["cache_before"] = world.cache_snapshot()
@@ -519,6 +531,8 @@ def run_script(case, mode, forced=None):
             raise ValueError(name)
 
         with loader_seams(world, scheduler):
+            if scheduler is not None:
+                scheduler.trace_this_thread(True)
             try:
                 try:
                     for op in case["script"]:
@@ -554,6 +568,7 @@ def run_script(case, mode, forced=None):
                     hist["step_cap"] = True
             finally:
                 if scheduler is not None:
+                    scheduler.trace_this_thread(False)
                     hist["leaked"] = scheduler.teardown()
         hist["cache_after"] = world.cache_snapshot()
         hist["failed_fetch"] = sorted(n for n, u in world.urls.items() if u in world.failed_fetch)
@@ -873,6 +888,12 @@ def run_case(case, forced=None):
         hist = run_script(case, "scheduled", forced=forced if forced is not None else case.get("schedule"))
         case["schedule"] = list(hist["schedule"])
         vio = judge(case, hist, ref, True)
+        if case.get("extended"):
+            res.stats["extended_runs"] = 1
+            if vio is not None:
+                # finer than the stated granularity: an observation for the evidence, never an alarm
+                res.stats["extended_observations"] = {vio["signature"]: 1}
+                vio = None
     shape = case["scenario"]["shape"]
     res.stats["steps"] = hist["steps"]
     res.stats["sim_time_s"] = hist["sim_time"]
